@@ -3,13 +3,16 @@ package c12
 
 import (
 	"context"
+	_ "embed"
 	"encoding/json"
 	"fmt"
 	"math/rand/v2"
 	"net/url"
 	"os"
+	"path/filepath"
 	"strings"
 	"time"
+	"verif/internal/gencode"
 
 	"github.com/ogen-go/ogen"
 	"github.com/ogen-go/ogen/openapi/parser"
@@ -222,7 +225,109 @@ func Check(r *core.Run) error {
 			return err
 		}
 	}
-	return pathKeys(r)
+	if err := pathKeys(r); err != nil {
+		return err
+	}
+	return served(r)
+}
+
+//go:embed serve_main.go.txt
+var serveMain string
+
+// served sends equivalent spellings of request paths to a server regenerated from a
+// document whose templates have escaped static text, escaped slashes and parameters.
+func served(r *core.Run) error {
+	spec := `openapi: 3.0.3
+info: {title: t, version: "1"}
+paths:
+  "/foo%20bar": {get: {operationId: space, responses: {"200": {description: ok}}}}
+  "/caf%C3%A9/{p}": {get: {operationId: cafe, parameters: [{name: p, in: path, required: true, schema: {type: string}}], responses: {"200": {description: ok}}}}
+  "/plain/{p}": {get: {operationId: plain, parameters: [{name: p, in: path, required: true, schema: {type: string}}], responses: {"200": {description: ok}}}}
+  "/a%2Fb": {get: {operationId: slash, responses: {"200": {description: ok}}}}
+  "/tilde~/x": {get: {operationId: tilde, responses: {"200": {description: ok}}}}
+`
+	mod, err := gencode.NewModule(r.Scratch, "srvmod")
+	if err != nil {
+		return err
+	}
+	if _, err := mod.Generate("srv", []byte(spec), gencode.ServerOnly()); err != nil {
+		return fmt.Errorf("%w: served: generate: %v", tlc.ErrInfra, err)
+	}
+	if err := mod.WriteFile("drv/main.go", []byte(serveMain)); err != nil {
+		return err
+	}
+	bin, err := mod.Build("drv", "drv")
+	if err != nil {
+		return fmt.Errorf("%w: served: %v", tlc.ErrInfra, err)
+	}
+	// groups of equivalent spellings (and near misses, which TLC sorts out by Canon)
+	groups := [][]string{
+		{"/foo%20bar", "/%66oo%20bar", "/fo%6f%20bar", "/fo%6F%20b%61r", "/foo%20b%61r"},
+		{"/caf%C3%A9/v", "/caf%c3%a9/v", "/c%61f%C3%A9/v", "/caf%C3%A9/%76", "/caf%C3%a9/v"},
+		{"/plain/a%20b", "/pl%61in/a%20b", "/plain/%61%20b", "/plain/a%20%62"},
+		{"/plain/%7e", "/plain/~", "/plain/%7E", "/pl%61in/~"},
+		{"/plain/a%2Fb", "/plain/a%2fb", "/pl%61in/a%2Fb", "/plain/%61%2Fb"},
+		{"/a%2Fb", "/a%2fb", "/%61%2Fb", "/a%2F%62"},
+		{"/tilde~/x", "/tilde%7E/x", "/tilde%7e/x", "/tilde~/%78"},
+		{"/plain/x", "/plain/%78", "/%70lain/x", "/plain/X"},
+	}
+	var targets []string
+	for _, g := range groups {
+		targets = append(targets, g...)
+	}
+	tb, _ := json.Marshal(targets)
+	jf := filepath.Join(r.Scratch, "served.job")
+	if err := os.WriteFile(jf, tb, 0o644); err != nil {
+		return err
+	}
+	out, err := gencode.Run(bin, nil, jf)
+	if err != nil {
+		return fmt.Errorf("%w: served driver: %v\n%s", tlc.ErrInfra, err, out)
+	}
+	type sline struct {
+		Target   string `json:"target"`
+		Outcome  string `json:"outcome"`
+		RawEmpty bool   `json:"rawEmpty"`
+	}
+	got := map[string]sline{}
+	for _, l := range strings.Split(strings.TrimSpace(out), "\n") {
+		var x sline
+		if json.Unmarshal([]byte(l), &x) != nil {
+			return fmt.Errorf("%w: served driver line %q", tlc.ErrInfra, l)
+		}
+		got[x.Target] = x
+	}
+	var lines [][]byte
+	var desc []string
+	for _, g := range groups {
+		for i := 0; i < len(g); i++ {
+			for j := i + 1; j < len(g); j++ {
+				a, b := got[g[i]], got[g[j]]
+				if a.Target == "" || b.Target == "" {
+					return fmt.Errorf("%w: served driver gave no line for %q / %q", tlc.ErrInfra, g[i], g[j])
+				}
+				lb, _ := json.Marshal(map[string]any{"a": toInts(g[i]), "b": toInts(g[j]), "oa": a.Outcome, "ob": b.Outcome, "rawA": a.RawEmpty, "rawB": b.RawEmpty})
+				lines = append(lines, lb)
+				desc = append(desc, fmt.Sprintf("GET %s -> %s; GET %s -> %s", g[i], a.Outcome, g[j], b.Outcome))
+				r.Nontrivial("served|" + classWord(g[i]) + "|" + classWord(g[j]))
+			}
+		}
+	}
+	r.Cov("served_spelling_pairs", len(lines))
+	r.AddEvals(int64(len(lines)))
+	vs, err := obs.Check(r, lines, obs.CheckOpts{Module: "NormalizeServeCheck", Cfg: obs.StdCfg("KnownDeviations = " + r.KnownSet())})
+	if err != nil {
+		return err
+	}
+	for _, v := range vs {
+		switch {
+		case strings.HasPrefix(v.Kind, "known="):
+			r.KnownHit(strings.TrimPrefix(v.Kind, "known="), desc[v.Index])
+		default:
+			r.Violate("equivalent request paths reach different things: "+desc[v.Index], map[string]any{"kind": "served", "pair": desc[v.Index]})
+		}
+	}
+	return nil
 }
 
 // selfTest corrupts one recorded field and requires TLC to reject it (binding is not vacuous).
